@@ -1,9 +1,6 @@
 package validate
 
-import "hash/fnv"
-
 // VerifReset clears the process-wide order-validation state (simulator builds only).
 func VerifReset() {
 	m = make(map[uint64]uint32)
-	h = fnv.New64a()
 }
